@@ -42,7 +42,7 @@ def cases(tier, seed):
             bf = rng.choice([2, 4])
             g = dict(seed=rng.randrange(10 ** 9), ndims=3, nlevels=1 + (hi + k) % 3, bf=bf,
                      names=["f0", "f1", "f2"], base_blocks=(1, 2) if bf == 4 else (2, 3),
-                     payload=rng.choice(["random", "special", "random"]))
+                     payload=rng.choice(["random", "special", "extreme"]))
             if (hi + k) % 4 == 1:     # unusual but valid names (no blanks: chef takes kept fields as one blank-separated string)
                 g["names"] = gen.odd_names(random.Random(seed * 41 + hi * 7 + k), 3 + (hi % 2), nonascii=True)
             cs.append({"kind": "hist", "gen": g, "history": h, "sel_seed": seed * 83 + hi * 7 + k})
